@@ -1,6 +1,8 @@
 // C09 thorough tier: the REAL iora::core::ThreadPool under ThreadSanitizer (no DetSched) — the search for data races.
 // Rounds of: several submitter threads submitting through all three entry points (some tasks throw, some submit further tasks),
 // short idle time-out so that idle exits race submissions, then drain/stop/shutdown/destruction. Checks exactly-once by counters.
+// Also: two threads calling shutdown() concurrently (FC09a: when EITHER call has returned every accepted task has run), and a
+// restart (stop, reset() + start()) while a submitter keeps submitting (FC09c: never more than maxSize workers).
 #include <atomic>
 #include <chrono>
 #include <cstdio>
@@ -31,7 +33,8 @@ int main(int argc, char** argv)
   {
     std::size_t mn = rnd() % 3, mx = std::max<std::size_t>(1, mn) + rnd() % 3;
     std::atomic<long> accepted{0}, executed{0}, handled{0};
-    int how = static_cast<int>(rnd() % 4);
+    int how = static_cast<int>(rnd() % 6);
+    std::atomic<long> earlyReturn{0}, overMax{0};
     {
       ThreadPool pool(mn, mx, std::chrono::milliseconds(1 + rnd() % 3), 16 + rnd() % 64,
                       [&](std::exception_ptr) { handled++; });
@@ -61,7 +64,41 @@ int main(int argc, char** argv)
       for (auto& t : subs) t.join();
       if (how == 0) pool.stop();
       else if (how == 2) pool.shutdown();
+      else if (how == 4)
+      {
+        // two concurrent shutdown() callers: whoever returns, returns only when everything accepted has been executed
+        auto caller = [&] { pool.shutdown(); if (accepted.load() != executed.load()) earlyReturn++; };
+        std::thread a(caller), b(caller);
+        a.join();
+        b.join();
+      }
+      else if (how == 5)
+      {
+        pool.stop();
+        std::atomic<bool> go{true};
+        std::thread sub([&] {
+          while (go.load())
+          {
+            if (pool.tryEnqueue([&] { executed++; })) accepted++;
+            if (pool.getTotalThreadCount() > mx) overMax++;
+          }
+        });
+        if (pool.reset().success) pool.start();
+        for (int i = 0; i < 50; ++i)
+        {
+          if (pool.getTotalThreadCount() > mx) overMax++;
+          std::this_thread::yield();
+        }
+        go = false;
+        sub.join();
+        pool.stop();
+      }
       // how == 3: plain destruction
+    }
+    if (earlyReturn.load() || overMax.load())
+    {
+      std::printf("round %d: shutdown() returned early %ld times, more than maxSize workers seen %ld times\n", r, earlyReturn.load(), overMax.load());
+      bad++;
     }
     if (accepted.load() != executed.load())
     {
